@@ -168,6 +168,15 @@ class Obj(object):
         return '<%s#%s%s>' % (self.cls.name, self.oid, ' ' + self.label if self.label else '')
 
 
+class SymDict(object):
+    """Mapping with unknown contents (sys.modules): membership forks, lookups give Unknown."""
+    def __init__(self, label):
+        self.label = label
+
+    def __repr__(self):
+        return 'SymDict(%s)' % self.label
+
+
 class SymSet(object):
     """Set with unknown prior contents."""
     def __init__(self, label):
@@ -236,6 +245,7 @@ class Interp(object):
         self.on_setattr = None     # callable(target, attr, value)
         self.call_depth = 0
         self.current_line = None
+        self.sys_path = ['<sys.path[0]>']
 
     # ---- path exploration ------------------------------------------------
     def reset_path(self, prefix):
@@ -289,7 +299,7 @@ class Interp(object):
                     pass
                 else:
                     try:
-                        m = __import__(mod, fromlist=[a.name]) if mod in ('bisect', 'string', 'sys', 'builtins') else None
+                        m = __import__(mod, fromlist=[a.name]) if mod in ('bisect', 'string', 'sys', 'builtins', 'os.path', 'os', 'contextlib') else None
                     except ImportError:
                         m = None
                     env[local] = self.wrap_native(getattr(m, a.name)) if m is not None and hasattr(m, a.name) \
@@ -297,8 +307,8 @@ class Interp(object):
         elif isinstance(st, ast.Import):
             for a in st.names:
                 local = a.asname or a.name.split('.')[0]
-                if a.name in ('sys', 'string', 'builtins'):
-                    env[local] = NativeModule(a.name, __import__(a.name))
+                if a.name in ('sys', 'string', 'builtins', 'os', 'os.path'):
+                    env[local] = NativeModule(a.name.split('.')[0], __import__(a.name.split('.')[0]))
                 else:
                     env[local] = Unknown('module ' + a.name)
         elif isinstance(st, (ast.FunctionDef, ast.AsyncFunctionDef)):
@@ -378,7 +388,7 @@ class Interp(object):
         if fn.model:
             return fn.fn(self, args, kwargs)
         for a in list(args) + list(kwargs.values()):
-            if isinstance(a, (SymNode, Obj, Unknown, SymSet, SymPos, LocExpr)):
+            if isinstance(a, (SymNode, Obj, Unknown, SymSet, SymPos, LocExpr, SymDict)):
                 raise Uninterpretable('native %s applied to abstract value %r' % (name, a))
         return fn.fn(self, args, kwargs)
 
@@ -512,7 +522,14 @@ class Interp(object):
         if isinstance(v, SuppModule):
             return self.lookup_global(v.rel, attr)
         if isinstance(v, NativeModule):
-            return self.wrap_native(getattr(v.mod, attr), attr)
+            if v.mod is __import__('sys') and attr == 'modules':
+                return SymDict('sys.modules')
+            if v.mod is __import__('sys') and attr == 'path':
+                return self.sys_path
+            x = getattr(v.mod, attr)
+            if type(x).__name__ == 'module':
+                return NativeModule(attr, x)
+            return self.wrap_native(x, attr)
         if isinstance(v, SymSet):
             return Native('symset_' + attr, lambda it, a, k, s=v, at=attr: it.symset_method(s, at, a))
         if isinstance(v, (list, dict, set, str, tuple)):
@@ -701,6 +718,18 @@ class Interp(object):
     def nat_all(self, args, kwargs):
         return all(self.truth(x, None) for x in self.iterate(args[0]))
 
+    def nat_exists(self, args, kwargs):
+        self.effect('probe', args[0])
+        return self.decide(('exists', str(args[0])))
+
+    def nat_getmtime(self, args, kwargs):
+        self.effect('getmtime', args[0])
+        return 0
+
+    def nat___import__(self, args, kwargs):
+        self.effect('import', args[0])
+        return Unknown('module')
+
     def _lt(self, a, b):
         return self.compare(ast.Lt(), a, b, None)
 
@@ -789,7 +818,9 @@ class Interp(object):
                 r = (a == b)
             return r if isinstance(op, ast.Eq) else not r
         if isinstance(op, (ast.In, ast.NotIn)):
-            if isinstance(b, SymSet):
+            if isinstance(b, SymDict):
+                r = self.decide(('in', str(a), b.label))
+            elif isinstance(b, SymSet):
                 if any(x == a for x in b.added):
                     r = True
                 else:
@@ -941,6 +972,8 @@ class Interp(object):
                 return v[i]
             except KeyError:
                 raise InterpRaise('KeyError', repr(i), e)
+        if isinstance(v, SymDict):
+            return Unknown('%s[%s]' % (v.label, i))
         if isinstance(v, Obj):
             m = v.cls.lookup('__getitem__')
             if m is not None:
